@@ -60,6 +60,7 @@ func checkC05(c *Ctx) {
 	c10Accessors(c, prog)
 	// "the variable-time generator multiply used by verification": its only consumer hands the product on (rule C16-1)
 	c16Double(c, prog)
+	c05Generator(c, prog)
 	c05File(c, prog)
 	c05Decoder(c, prog)
 	c05Odd(c, prog)
@@ -336,4 +337,59 @@ func lenOf(a *types.Array) int64 {
 		return -1
 	}
 	return a.Len()
+}
+
+// c05Generator: the generator the API hands out is the SEC 2 base point (the tables are multiples of *that* point; the
+// coordinates come from two package-level constants nobody else compares with the standard).
+func c05Generator(c *Ctx, prog *load.Program) {
+	pl := pointFields(prog)
+	if pl.x < 0 || pl.y < 0 || pl.z < 0 || pl.valid < 0 {
+		c.R.Unknown("C05-1", "generator/layout", "", "Point fields not found")
+		return
+	}
+	set := fieldSet()
+	for _, name := range []string{Method(models.PointType, "Generator"), models.Mod + ".NewGeneratorPoint"} {
+		r := RunFn(prog, set, name, nil)
+		if r.Fn == nil {
+			continue
+		}
+		key := "generator/" + r.Fn.Name()
+		pos := PosOf(prog, r.Fn)
+		if !r.OK() {
+			c.R.Unknown("C05-1", key, pos, r.Problem())
+			continue
+		}
+		var cs [3]*sym.Term
+		var flag absint.Val
+		if r.Fn.Signature.Recv() != nil {
+			cs = coordsOf(r, pl, 0)
+			flag = r.FieldOf(0, pl.valid)
+		} else {
+			p, ok := r.Out.Ret.St.Resolve(r.Result(0)).(*absint.Ptr)
+			if !ok {
+				c.R.Unknown("C05-1", key, pos, "result is not a pointer to a Point")
+				continue
+			}
+			st := r.Out.Ret.St
+			for i, f := range []int{pl.x, pl.y, pl.z} {
+				t, _ := st.Resolve(r.Ex.LoadLeaf(st, &absint.Ptr{Obj: p.Obj, Path: []absint.Step{{Field: f}}})).(*sym.Term)
+				cs[i] = t
+			}
+			flag = st.Resolve(r.Ex.LoadLeaf(st, &absint.Ptr{Obj: p.Obj, Path: []absint.Step{{Field: pl.valid}}}))
+		}
+		want := [3]*big.Int{refmath.Gx(), refmath.Gy(), big.NewInt(1)}
+		ok, detail := true, ""
+		for i := range cs {
+			if cs[i] == nil || !cs[i].IsConst() || cs[i].C.Cmp(want[i]) != 0 {
+				ok = false
+				detail += fmt.Sprintf(" %c = %s;", "XYZ"[i], absint.ValString(cs[i]))
+			}
+		}
+		ft, _ := flag.(*sym.Term)
+		if ft == nil || !ft.IsConst() || ft.C.Sign() == 0 {
+			ok = false
+			detail += " validity flag = " + absint.ValString(flag)
+		}
+		c.R.Decide(ok, "C05-1", key, pos, "yields (Gx, Gy, 1) of SEC 2 with the validity flag set", "the generator handed out is not the SEC 2 base point:"+detail)
+	}
 }
